@@ -411,5 +411,28 @@ c.trusted = True
 c.libimpl = 'asyncio.Queue'
 c.trusted_reason = ('queue.Queue() / asyncio.Queue() with the library Empty exception class stored '
                     'on it (library contract: a new empty queue)')
-# (Client.connect itself - argument checks, the filtering comprehension over `transports` and the
-# getattr dispatch - is not under contract: comprehensions with a filter are outside the subset)
+
+# ----------------------------------------------------------------------------- connect (C08)
+for _cls, _mod in (('Client', 'client'), ('AsyncClient', 'async_client')):
+    c = REG.contract('%s.%s.connect' % (_mod, _cls), props=['C08'])
+    c.param('self', Ref(_cls)).param('url', STR).param('headers', [NONE, Dict(STR, STR)])
+    c.param('transports', [NONE, STR, List(STR)]).param('engineio_path', STR)
+    c.returns(ANY)
+    if _cls == 'AsyncClient':
+        c.abstract('if self.handle_sigint and',
+                   'installs the process-wide SIGINT handler once (no client state)')
+    c.requires("self.sid is None or self.state != 'disconnected'", 'reset-left-no-sid')
+    c.may_raise('ValueError', "self.state != 'disconnected' or transports is not None",
+                label='not-disconnected-or-no-valid-transport',
+                ensures=[('nothing-changes', "self.state == old(self.state) and "
+                          "self.sid == old(self.sid) and events == old(events) and "
+                          "spawned == old(spawned)")], props=['C08'])
+    c.ensures('only-from-the-disconnected-state', "old(self.state) == 'disconnected'",
+              props=['C08'])
+    c.may_raise('ConnectionError', "self.state == 'disconnected'", label='server-refused',
+                ensures=[('client-left-disconnected-and-reusable', NOT_CONNECTED)], props=['C08'])
+    c.ensures('events-only-grow', 'grows(events, old(events))')
+    c.modifies('self.transports', 'self.queue', *CP_MOD)
+    c.loop(0, index='i', invariants=[
+        ('kept-are-valid', "forall(lambda k: comp[k] == 'polling' or comp[k] == 'websocket', 0, "
+         "len(comp))")], elem_ty=STR)
